@@ -76,6 +76,37 @@ def matrix_cells():
 CELLS = matrix_cells()
 
 
+def _reachable_states(acc):
+    """Observational cache states closed under the implications smooth->fa, pgv->vd, pgd->vd."""
+    import itertools
+    groups = ALL_GROUPS if acc else ("fa", "smooth")
+    out = []
+    for r in range(len(groups) + 1):
+        for sub in itertools.combinations(groups, r):
+            st = set(sub)
+            if "smooth" in st and "fa" not in st:
+                continue
+            if ("pgv" in st or "pgd" in st) and "vd" not in st:
+                continue
+            out.append(tuple(sorted(st)))
+    return out
+
+
+MKINDS = {"Signal": ["mut:" + m for m in MUT_SIG] + ["set:" + x for x in SET_SMOOTH] + ["kop:" + k for k in KOPS],
+          "AccSignal": ["mut:" + m for m in MUT_ACC] + ["set:" + x for x in SET_SMOOTH + SET_RESP] + ["kop:" + k for k in KOPS]}
+SWEEP_STATE = [(cls, st, mk) for cls in ("Signal", "AccSignal") for st in _reachable_states(cls == "AccSignal")
+               for mk in MKINDS[cls]]
+K2_MAX_SITES = 12
+SWEEP_K2 = [(cls, mk, k) for cls in ("Signal", "AccSignal") for mk in MKINDS[cls] for k in range(K2_MAX_SITES)]
+# reads (generators and indirect reads count too) under an injected failure, from a cold and from a warm object
+SWEEP_K2_READS = [(cls, x, k) for cls, obs in (("Signal", OBS_SIG), ("AccSignal", OBS_ACC)) for x in obs
+                  if x in GROUP_OF for k in range(4)]
+N_SWEEP = len(SWEEP_STATE) + len(SWEEP_K2) + len(SWEEP_K2_READS)
+REPRESENTATIVE = {"fa": ["fa_spectrum", "fa_spectrum_abs", "fa_freqs", "fa_frequencies"], "smooth": ["smooth_fa_spectrum"],
+                  "vd": ["velocity", "displacement"], "pga": ["pga"], "pgv": ["pgv"], "pgd": ["pgd"],
+                  "resp": ["s_a", "s_v", "s_d"]}
+
+
 class World(object):
     def __init__(self):
         self.objs = {}
@@ -116,6 +147,9 @@ class C04(Profile):
     # ------------------------------------------------------------------------------------------
     def make_config(self, rng, tier, index):
         thorough = tier == "thorough"
+        if index < N_SWEEP:
+            return self._sweep_config(rng, index)
+        index = index - N_SWEEP
         rc = index % 4
         cfg = {
             "run_class": ["plain-uniform", "plain-cell", "fault-uniform", "fault-cell"][rc],
@@ -139,6 +173,22 @@ class C04(Profile):
             cfg["mut_off"] = sorted(rng.sample(MUT_ACC, rng.randint(1, len(MUT_ACC) // 2)))
         else:
             cfg["mut_off"] = []
+        return cfg
+
+    def _sweep_config(self, rng, index):
+        cfg = {"faults_on": False, "directed": False, "strict_fp": False, "n_objs": 1, "cluster": False, "length": 0,
+               "n_range": (32, 96), "p_read": 0.5, "k1_rate": 0.0, "k2_rate": 0.0, "default_settings": False,
+               "acc_bias": 1.0, "mut_off": [], "max_steps": 40, "cell_index": 0}
+        if index < len(SWEEP_STATE):
+            cls, st, mk = SWEEP_STATE[index]
+            cfg.update(run_class="sweep-state", sweep={"cls": cls, "state": list(st), "mk": mk})
+        elif index < len(SWEEP_STATE) + len(SWEEP_K2):
+            cls, mk, k = SWEEP_K2[index - len(SWEEP_STATE)]
+            st = list(ALL_GROUPS if cls == "AccSignal" else ("fa", "smooth"))
+            cfg.update(run_class="sweep-k2", faults_on=True, sweep={"cls": cls, "state": st, "mk": mk, "site": k})
+        else:
+            cls, x, k = SWEEP_K2_READS[index - len(SWEEP_STATE) - len(SWEEP_K2)]
+            cfg.update(run_class="sweep-k2-read", faults_on=True, sweep={"cls": cls, "state": [], "read": x, "site": k})
         return cfg
 
     def new_world(self, config):
@@ -196,15 +246,7 @@ class C04(Profile):
         if k == "regen":
             return getattr(obj, op["m"])()
         if k == "iread":
-            mod, fn = op["f"].split(".")
-            extra = []
-            if ":" in fn:
-                fn, arg = fn.split(":")
-                extra = [arg]
-            m = {"im": eqsig.im, "fns": eqsig, "sdof": eqsig.sdof, "method": obj}[mod]
-            if mod == "method":
-                return getattr(obj, fn)()
-            return getattr(m, fn)(obj, *extra)
+            return self._exec_iread(obj, op)
         if k == "mut":
             name = op["m"].split(":")[0]
             if name == "szrdv":
@@ -229,6 +271,18 @@ class C04(Profile):
             if how == "resp_series":
                 return obj.response_series(response_times=v)
         raise ValueError("unknown op %r" % (op,))
+
+    def _exec_iread(self, obj, op):
+        eqsig = self.eqsig
+        mod, fn = op["f"].split(".")
+        extra = []
+        if ":" in fn:
+            fn, arg = fn.split(":")
+            extra = [arg]
+        if mod == "method":
+            return getattr(obj, fn)()
+        m = {"im": eqsig.im, "fns": eqsig, "sdof": eqsig.sdof}[mod]
+        return getattr(m, fn)(obj, *extra)
 
     def _other(self, world, op):
         eqsig = self.eqsig
@@ -445,6 +499,20 @@ class C04(Profile):
                          what="%s.%s read from the object differs from a fresh object: %s" % (op["p"], op["x"], why),
                          subject=out.brief(), twin=ref.brief())
                 return v
+        # (a') the value an analysis function computed from the object equals what it computes from a fresh object
+        if op["op"] == "iread" and not (fkind == "K2" and not out.ok):
+            obj = world.objs[op["p"]]
+            cache = world.twins.setdefault(self._twin_key(obj), {})
+            k = "iread:" + op["f"]
+            if k not in cache:
+                world.stats["twin_builds"] += 1
+                cache[k] = capture(lambda: self._exec_iread(self._build_twin(obj), op))
+            ref = cache[k]
+            why = outcomes_agree(out, ref, self._rtol(obj))
+            if why:
+                return dict(base, invariant="read==twin", observable=k, cls=_cls_name(obj), party=op["p"],
+                            what="%s(%s) differs from the same call on a fresh object: %s" % (op["f"], op["p"], why),
+                            subject=out.brief(), twin=ref.brief())
         # (b) settings echo
         if op["op"] == "set" and out.ok:
             v = self._echo(world, op, pre, base)
@@ -596,6 +664,15 @@ class C04(Profile):
             "twin_builds": agg.get("twin_builds", 0),
             "deepcopy_fallback": agg.get("deepcopy_fallback", 0),
             "run_classes": agg.get("run_class", {}),
+            "sweeps": {"cache_state_x_operation": {"reachable_states_AccSignal": len(_reachable_states(True)),
+                                                     "reachable_states_Signal": len(_reachable_states(False)),
+                                                     "pairs": len(SWEEP_STATE),
+                                                     "runs_executed": agg.get("run_class", {}).get("sweep-state", 0),
+                                                     "exhaustive_over_pairs": agg.get("run_class", {}).get("sweep-state", 0) == len(SWEEP_STATE)},
+                       "k2_site_x_operation": {"pairs": len(SWEEP_K2), "runs_executed": agg.get("run_class", {}).get("sweep-k2", 0)},
+                       "k2_site_x_read": {"pairs": len(SWEEP_K2_READS), "runs_executed": agg.get("run_class", {}).get("sweep-k2-read", 0)},
+                       "note": "directed runs placed first in every tier: arguments are seeded, the (state, operation) "
+                               "and (operation, fault site) dimensions are enumerated"},
         }
 
 
@@ -620,10 +697,12 @@ class OpGen(object):
         self.setup_done = False
         self.emitted = 0
         self.mut_off = set(config.get("mut_off", []))
+        self._world = None
 
     # -- entry point -------------------------------------------------------------------------------
     def __call__(self, world, step):
         rng = self.rng
+        self._world = world
         if not self.setup_done:
             self.setup_done = True
             self._plan_setup(world)
@@ -643,6 +722,12 @@ class OpGen(object):
                 op = g
         self.emitted += 1
         op["cs"] = self.rng2.randrange(1 << 30)
+        if "want_site" in op:      # K2 site sweep: a specific site index, if the operation has that many
+            k = op.pop("want_site")
+            n = self.profile.count_sites(world, op)
+            if k < n:
+                op["fault"] = {"k": "K2", "site": k, "of": n}
+            return op
         # K2: arm an allocation failure inside this operation
         if (self.cfg["faults_on"] and op["op"] not in ("new", "newk") and not op.get("fault")
                 and op.get("want_k2", rng.random() < self.cfg["k2_rate"])
@@ -657,8 +742,42 @@ class OpGen(object):
         return op
 
     # -- setup -------------------------------------------------------------------------------------
+    def _plan_sweep(self, world):
+        rng, cfg = self.rng, self.cfg
+        sw = cfg["sweep"]
+        cls = sw["cls"]
+        mk = sw.get("mk", "")
+        on_cluster = mk.startswith("kop:")
+        if on_cluster:
+            self.queue.append(lambda w: self.g_newk("K0", first_cls=cls))
+            target = "K0.1"
+        else:
+            self.queue.append(lambda w: self.g_new("S0", cls))
+            target = "S0"
+            if mk == "mut:add_signal":
+                self.queue.append(lambda w: self.g_new("S1", cls, like="S0"))
+        reads = [rng.choice(REPRESENTATIVE[g]) for g in sw["state"]]
+        rng.shuffle(reads)
+        for x in reads:
+            self.queue.append(lambda w, x=x: {"op": "read", "p": target, "x": x})
+        if "read" in sw:
+            self.queue.append(lambda w: {"op": "read", "p": target, "x": sw["read"], "want_site": sw["site"]})
+            self.queue.append(lambda w: {"op": "read", "p": target, "x": sw["read"]})
+            return
+
+        def directed(w):
+            op = self.g_directed(w, target, mk, want_fault=False)
+            if op is not None and "site" in sw:
+                op["want_site"] = sw["site"]
+            return op
+        self.queue.append(directed)
+        for _ in range(2):
+            self.queue.append(lambda w: self.g_read(w, target))
+
     def _plan_setup(self, world):
         rng, cfg = self.rng, self.cfg
+        if cfg.get("sweep"):
+            return self._plan_sweep(world)
         directed = cfg["directed"]
         cell = CELLS[cfg["cell_index"]].split("|") if directed else None
         n_objs = cfg["n_objs"]
@@ -684,9 +803,9 @@ class OpGen(object):
             self.queue.append(lambda w, t=target, m=cell[2]: self.g_directed(w, t, m))
             self.queue.append(lambda w, t=target, x=cell[1]: {"op": "read", "p": t, "x": x})
 
-    def g_directed(self, world, target, mk):
+    def g_directed(self, world, target, mk, want_fault=True):
         kind, name = mk.split(":", 1)
-        want = self.cfg["faults_on"]
+        want = self.cfg["faults_on"] and want_fault
         if kind == "mut":
             op = self.g_mut(world, target, name)
         elif kind == "set":
@@ -714,8 +833,10 @@ class OpGen(object):
     def _dt(self):
         return self.rng.choice([0.001, 0.002, 0.005, 0.01, 0.01, 0.01, 0.02, 0.025, 0.05])
 
-    def g_new(self, name, cls, n=None, dt=None):
+    def g_new(self, name, cls, n=None, dt=None, like=None):
         rng = self.rng
+        if like is not None and self._world is not None and like in self._world.objs:
+            n, dt = len(self._world.objs[like].values), float(self._world.objs[like].dt)
         op = {"op": "new", "p": name, "cls": cls, "values": self._values(n), "dt": dt or self._dt(), "kw": {}}
         if not self.cfg["default_settings"] or rng.random() < 0.5:
             if rng.random() < 0.8:
